@@ -2655,8 +2655,16 @@ func (rl *clientConnReadLoop) handleResponse(cs *clientStream, f *MetaHeadersFra
 		return res, nil
 	}
 
+	// A response that cannot have content (204, 304) may still carry the
+	// Content-Length of the representation (RFC 9110, section 8.6): no DATA
+	// is owed for it, as in HTTP/1.1 and HTTP/3.
+	bodyLength := res.ContentLength
+	if bodyLength > 0 && !bodyAllowedForStatus(statusCode) {
+		bodyLength = 0
+	}
+
 	if f.StreamEnded() {
-		if res.ContentLength > 0 {
+		if bodyLength > 0 {
 			res.Body = missingBody{}
 		} else {
 			res.Body = noBody
@@ -2664,8 +2672,8 @@ func (rl *clientConnReadLoop) handleResponse(cs *clientStream, f *MetaHeadersFra
 		return res, nil
 	}
 
-	cs.bufPipe.setBuffer(&dataBuffer{expected: res.ContentLength})
-	cs.bytesRemain = res.ContentLength
+	cs.bufPipe.setBuffer(&dataBuffer{expected: bodyLength})
+	cs.bytesRemain = bodyLength
 	res.Body = transportResponseBody{cs}
 
 	if cs.requestedGzip && ascii.EqualFold(res.Header.Get("Content-Encoding"), "gzip") {
